@@ -325,6 +325,7 @@ func (s *SFlowDatagram) DecodeFromBytes(data []byte, df gopacket.DecodeFeedback)
 	if s.SampleCount < 1 {
 		return fmt.Errorf("SFlow Datagram has invalid sample length: %d", s.SampleCount)
 	}
+	s.FlowSamples, s.CounterSamples = nil, nil
 	for i := uint32(0); i < s.SampleCount; i++ {
 		if len(data) < 4 {
 			df.SetTruncated()
